@@ -64,7 +64,7 @@ Record rt_ok (c : cfg) (dd : list string) (e : expr) : Prop := mkrt {
   rt_unparse : forall want, unparse (dtree_of want e) = fst (to_py want e);
   rt_wfn : forall want, wfn (dtree_of want e) = true;
   rt_lvl10 : 10 <= dlvl (dtree_of true e);
-  rt_lvl12 : is_negzero e = false -> dlvl (dtree_of true e) = 12;
+  rt_lvl12 : dlvl (dtree_of true e) = 12;
   rt_walk : forall want, walk c dd (strip (dtree_of want e)) = Ok e
 }.
 
@@ -84,15 +84,17 @@ Proof. simpl. intros H. apply andb_prop in H as [Hm _]. constructor; try reflexi
   intros want. cbn [dtree_of strip]. rewrite walk_node_eq, (wn_var c "var"); [|simpl; tauto].
   cbn [map nth walk]. rewrite Hm. reflexivity. Qed.
 
+(* an operand constant is an atom: printed with a sign it is parenthesised *)
+Lemma dlvl_operand_val v : dlvl (par_when (true && prints_with_sign v) (dval v)) = 12.
+Proof. destruct (true && prints_with_sign v) eqn:N; [reflexivity|]. simpl par_when. apply dlvl_dval_signless.
+  destruct v as [|b|z|neg m|neg|s]; simpl in *; try reflexivity; rewrite N; reflexivity. Qed.
+
 Lemma rt_val v : printable c dd (EVal v) = true -> rt_ok c dd (EVal v).
 Proof. simpl. intros H. apply negb_true_iff in H. constructor.
-  - intros want. cbn [dtree_of to_py]. rewrite unparse_par_when, unparse_dval. destruct (want && num_is_neg v); reflexivity.
+  - intros want. cbn [dtree_of to_py]. rewrite unparse_par_when, unparse_dval. destruct (want && prints_with_sign v); reflexivity.
   - intros want. cbn [dtree_of]. rewrite wfn_par_when. apply wfn_dval.
-  - cbn [dtree_of]. destruct (true && num_is_neg v); simpl; [lia|apply dlvl_dval_ge10].
-  - intros Hz. cbn [dtree_of]. destruct (true && num_is_neg v) eqn:N; [reflexivity|]. simpl par_when.
-    apply dlvl_dval_signless. destruct v as [|b|z|neg m|neg|s]; simpl in *; try reflexivity; try discriminate H.
-    + rewrite N. reflexivity.
-    + destruct neg; [|reflexivity]. simpl in N. apply negb_false_iff in N. rewrite N in Hz. discriminate Hz.
+  - cbn [dtree_of]. rewrite dlvl_operand_val. lia.
+  - cbn [dtree_of]. apply dlvl_operand_val.
   - intros want. cbn [dtree_of]. rewrite strip_par_when. apply walk_dval. exact H. Qed.
 
 (* ---- lists *)
@@ -107,10 +109,8 @@ Lemma existsb_inf_false vs v : existsb is_inf vs = false -> In v vs -> is_inf v 
 Proof. intros H Hv. destruct (is_inf v) eqn:E; [|reflexivity]. rewrite <- H. symmetry. apply existsb_exists. exists v. split; assumption. Qed.
 
 Lemma rt_list vs : printable c dd (EList vs) = true -> rt_ok c dd (EList vs).
-Proof. simpl. intros H. apply andb_prop in H as [H Hc]. apply andb_prop in H as [H Hn]. apply andb_prop in H as [Hs Hi].
+Proof. simpl. intros H. apply andb_prop in H as [H Hc]. apply andb_prop in H as [Hi Hn].
   apply negb_true_iff in Hi. apply negb_true_iff in Hn.
-  assert (Hw : forall x, In x (map dval vs) -> walk c dd (strip x) = Ok ((fun d => EVal (match d with _ => PNone end)) x) \/ True) by (intros; right; exact I).
-  clear Hw.
   assert (Hwalk : all_ok (map (walk c dd) (map strip (map dval vs))) = Ok (map EVal vs)).
   { rewrite !map_map. apply all_ok_map_Ok. intros v Hv. apply walk_dval. exact (existsb_inf_false _ _ Hi Hv). }
   constructor.
@@ -123,20 +123,21 @@ Proof. simpl. intros H. apply andb_prop in H as [H Hc]. apply andb_prop in H as 
   - simpl. lia.
   - reflexivity.
   - intros want. cbn [dtree_of].
-    destruct vs as [|v [|v2 vs]]; [discriminate Hs| |].
-    + (* one literal token *)
-      cbn [map]. assert (Hv : exists tk, dval v = DNum tk /\ walk c dd (LTok tk) = Ok (EVal v) \/ dval v = DStr tk /\ walk c dd (LTok tk) = Ok (EVal v)).
-      { destruct v as [|b|z|neg m|neg|s]; simpl in Hs; try discriminate Hs.
-        - apply Z.leb_le in Hs. exists (TInt (Z.to_N (Z.abs z))). left. simpl. replace (Z.ltb z 0) with false by (symmetry; apply Z.ltb_ge; lia).
-          split; [reflexivity|]. rewrite Z2N.id by lia. rewrite Z.abs_eq by lia. reflexivity.
-        - destruct neg; [discriminate Hs|]. exists (TFloat (Some m)). left. split; reflexivity.
-        - exists (TStr s). right. split; reflexivity. }
-      destruct Hv as [tk [[Ed Hw]|[Ed Hw]]]; rewrite Ed; cbn [strip]; rewrite walk_node_eq, wn_list; cbn [map all_ok];
-        rewrite Hw; cbn [map all_some]; cbn [map] in Hc; rewrite Hn, Hc; reflexivity.
+    destruct vs as [|v [|v2 vs]].
+    + (* [] *)
+      cbn [map strip]. rewrite walk_node_eq, wn_list. cbn [coll_items all_ok map all_some]. cbn [map] in Hc.
+      rewrite Hn, Hc. reflexivity.
+    + (* the lone item itself *)
+      cbn [map strip]. destruct (strip_dval_kind v) as [d [cs [Ed Hd]]].
+      assert (Hw : walk c dd (strip (dval v)) = Ok (EVal v)).
+      { apply walk_dval. apply (existsb_inf_false [v] v Hi). left. reflexivity. }
+      rewrite walk_node_eq, wn_list. rewrite Ed. cbn [coll_items]. rewrite Hd. cbn [map nth]. rewrite <- Ed, Hw.
+      cbn [all_ok map all_some]. cbn [map] in Hc. rewrite Hn, Hc. reflexivity.
     + assert (H2 : all_ok (map (walk c dd) (strip (dval v) :: strip (dval v2) :: map strip (map dval vs)))
                    = Ok (map EVal (v :: v2 :: vs))) by exact Hwalk.
       change (strip (DColl BBrack (map dval (v :: v2 :: vs)) false))
         with (LNode "list" [LNode "tuplelist_comp" (strip (dval v) :: strip (dval v2) :: map strip (map dval vs))]).
-      rewrite walk_node_eq, wn_list. rewrite H2, all_some_unwrap, Hn, Hc. reflexivity. Qed.
+      rewrite walk_node_eq, wn_list. cbn [coll_items]. change (mem_str "tuplelist_comp" ["tuplelist_comp"; "set_comp"]) with true.
+      cbv iota. rewrite H2, all_some_unwrap, Hn, Hc. reflexivity. Qed.
 
 End RT.
